@@ -140,6 +140,40 @@ Example C08_refused_nonvacuous :
 Proof. repeat split; vm_compute; reflexivity. Qed.
 
 (* ------------------------------------------------------------------ *)
+(** ** Producer and consumer store the same structured grid in different layouts *)
+
+(** When the layouts (axes order [l_rev], axis directions [l_inc]) of the two ends differ, the pull
+    transforms the stored array ([relayout], applied before unit conversion, see [C08_link_pull]).
+    For every grid size, every pair of layouts and every stored array of the producer's shape:
+    the result has the consumer's shape, and its element and mask bit at consumer index [ic] of
+    time entry [j] are the stored ones at the producer index [ip] ...                          *)
+Theorem C08_relayout :
+  forall (r : relay) (a : arr) (k : nat),
+    a_shape a = k :: lshape (r_dims r) (r_src r) ->
+    a_shape (relayout (Some r) a) = k :: lshape (r_dims r) (r_dst r)
+    /\ forall j ic, (j < k)%nat -> in_range ic (lshape (r_dims r) (r_dst r)) ->
+         let ip := idx_of (r_dims r) (r_src r) (can_of (r_dims r) (r_dst r) ic) in
+         aget (relayout (Some r) a) (j :: ic) = aget a (j :: ip)
+         /\ mget (relayout (Some r) a) (j :: ic) = mget a (j :: ip).
+Proof. exact relayout_spec. Qed.
+
+(** ... where [ip] denotes the same physical cell: the canonical (xyz, increasing) index of [ip]
+    in the producer's layout is the canonical index [c] of [ic] in the consumer's layout. *)
+Theorem C08_relayout_same_cell :
+  forall (dims : list nat) (l : glayout) (c : list nat),
+    in_range c dims -> length (l_inc l) = length dims -> can_of dims l (idx_of dims l c) = c.
+Proof. exact same_cell. Qed.
+
+(** Non-vacuity: 2x3 cells (x,y); producer reversed ([y,x] arrays) with y decreasing, consumer reversed, both increasing *)
+Example C08_relayout_nonvacuous :
+  let r := mkR [2; 3]%nat (mkL true [true; false]) (mkL true [true; true]) in
+  let a := mkA [1; 3; 2]%nat [1; 2; 3; 4; 5; 6]%Q (Some [true; false; false; false; false; false]) in
+  a_shape a = 1%nat :: lshape (r_dims r) (r_src r)
+  /\ relayout (Some r) a = mkA [1; 3; 2]%nat [5; 6; 3; 4; 1; 2]%Q (Some [false; false; false; false; true; false])
+  /\ in_range [1; 0]%nat (lshape (r_dims r) (r_dst r)).
+Proof. repeat split; try (vm_compute; reflexivity). repeat constructor. Qed.
+
+(* ------------------------------------------------------------------ *)
 (** ** Memory sharing *)
 
 (** Whatever the state of the output: a payload that [prepare] accepts is refused with DataError,
@@ -188,5 +222,7 @@ Print Assumptions C08_link_pull.
 Print Assumptions C08_payload.
 Print Assumptions C08_payload_refused.
 Print Assumptions C08_forms_exact.
+Print Assumptions C08_relayout.
+Print Assumptions C08_relayout_same_cell.
 Print Assumptions C08_sharing.
 Print Assumptions C08_sharing_identity.
